@@ -78,6 +78,8 @@ def run_case(sh, s, d, case):
     blob_dir = os.path.join(d, 'blobs')
     if kind == 'file':
         st = FSM.FileStorage(os.path.join(d, 'Data.fs'), blob_dir=blob_dir)
+    elif kind == 'blobwrap-file':
+        st = ZODB.blob.BlobStorage(blob_dir, FSM.FileStorage(os.path.join(d, 'Data.fs')))
     else:
         st = ZODB.blob.BlobStorage(blob_dir, ZODB.MappingStorage.MappingStorage())
     db = ZODB.DB(st)
@@ -394,7 +396,7 @@ def run_case(sh, s, d, case):
                 trace.append('fail(%s)' % what)
                 if not quiescent('after-failed-commit(%s)' % what) or not second_connection('after-failed-commit'):
                     return None
-            elif k in ('undo', 'undo2') and kind == 'file' and not pending:
+            elif k in ('undo', 'undo2') and kind in ('file', 'blobwrap-file') and not pending:
                 tm.abort()
                 del sp_stack[:]
                 info = [x for x in db.undoInfo(0, 5) if not str(x['description']).replace("b'", '').startswith('initial database creation')]
@@ -526,7 +528,54 @@ def crafted(sh, d, case):
     kind = case['kind']
     blob_dir = os.path.join(d, 'blobs')
     st = (FSM.FileStorage(os.path.join(d, 'Data.fs'), blob_dir=blob_dir) if kind == 'file'
+          else ZODB.blob.BlobStorage(blob_dir, FSM.FileStorage(os.path.join(d, 'Data.fs'))) if kind == 'blobwrap-file'
           else ZODB.blob.BlobStorage(blob_dir, ZODB.MappingStorage.MappingStorage()))
+    if case['crafted'] == 'undo-of-overwritten-blob-change':
+        # regression scenario for fix fd9c662, also on the blob wrapper over a FileStorage without blob directory of its own (that
+        # configuration is outside the statement's quantifier and not part of the generated histories): T1 A, T2 B, T3 C; undoing T2
+        # must be refused and change nothing; undoing T3 then T2 works
+        from ZODB.POSException import UndoError
+        db = ZODB.DB(st)
+        tm = transaction.TransactionManager()
+        c = db.open(tm)
+        for data in (b'A', b'B', b'C'):
+            tm.begin()
+            if 'b' not in c.root():
+                c.root()['b'] = Blob()
+            with c.root()['b'].open('w') as f:
+                f.write(data)
+            tm.get().note('write %s' % data.decode())
+            tm.commit()
+        ids = {str(x['description']): x['id'] for x in db.undoInfo(0, 10)}
+        last = st.lastTransaction()
+        tm.begin()
+        db.undo(ids['write B'], tm.get())
+        try:
+            tm.commit()
+            accepted = True
+        except UndoError:
+            tm.abort()
+            accepted = False
+        tm.begin()
+        with c.root()['b'].open('r') as f:
+            got = f.read()
+        tm.abort()
+        if accepted or got != b'C' or st.lastTransaction() != last:
+            sh.violation('c13:%s:undo-of-a-blob-change-accepted-although-a-later-transaction-rewrote-the-blob' % kind,
+                         {'crafted': True, 'accepted': accepted, 'blob': got}, case)
+        tm.begin()
+        db.undoMultiple([ids['write C'], ids['write B']], tm.get())
+        tm.commit()
+        tm.begin()
+        with c.root()['b'].open('r') as f:
+            got = f.read()
+        tm.abort()
+        if got != b'A':
+            sh.violation('c13:%s:blob-bytes-after-undo-differ' % kind, {'crafted': True, 'blob': got}, case)
+        sh.count('crafted_blob_undo_scenarios')
+        c.close()
+        db.close()
+        return
     db = ZODB.DB(st)
     tm = transaction.TransactionManager()
     c = db.open(tm)
@@ -592,6 +641,9 @@ def run_shard(params):
     if params.get('shard', 0) < 2:
         # fixed regression scenario (known finding until fix b982a9a)
         ccase = {'crafted': 'savepoint-overwrite', 'kind': ('file', 'blobwrap')[params.get('shard', 0)]}
+        guarded(sh, 'c13', ccase, lambda: crafted(sh, sh.fresh_dir('c13'), ccase))
+    elif params.get('shard', 0) < 4:
+        ccase = {'crafted': 'undo-of-overwritten-blob-change', 'kind': ('file', 'blobwrap-file')[params.get('shard', 0) - 2]}
         guarded(sh, 'c13', ccase, lambda: crafted(sh, sh.fresh_dir('c13'), ccase))
     for i in case_indices(params):
         if not sh.time_left():
